@@ -266,6 +266,54 @@ def read_tables(P, f):
     return out
 
 
+REORDER_METHODS = {'sort_values', 'sort_index', 'sort', 'sample', 'drop_duplicates', 'dropna', 'groupby', 'reindex', 'nlargest', 'nsmallest',
+                   'query', 'head', 'tail', 'drop', 'unique', 'shuffle', 'argsort', 'take', 'truncate', 'resample', 'merge', 'join', 'explode'}
+REORDER_FUNCS = ('builtins.sorted', 'builtins.reversed', 'builtins.set', 'numpy.sort', 'numpy.unique', 'numpy.argsort', 'numpy.flip',
+                 'numpy.random.shuffle', 'numpy.random.permutation', 'numpy.lexsort')
+
+
+def reordering_calls(P, f):
+    """calls inside f that can change the order or the multiplicity of the elements of a sequence"""
+    bad = []
+    for c in all_nodes(f):
+        if isinstance(c, ast.Call):
+            nm = c.func.attr if isinstance(c.func, ast.Attribute) else None
+            full = callee(P, f, c) or ''
+            if (nm in REORDER_METHODS and not (isinstance(c.func, ast.Attribute) and isinstance(c.func.value, ast.Constant))) or full in REORDER_FUNCS:
+                bad.append(c)
+        if isinstance(c, ast.Subscript) and isinstance(c.slice, ast.Slice) and c.slice.step is not None:
+            bad.append(c)
+    return bad
+
+
+def parameter_writes(P, f):
+    """statements of f that write into an object received as a parameter (slice / item store, augmented assignment, out=,
+    in-place methods): the caller's array changes"""
+    params = set(f.positional_params) - {'self', 'cls'}
+    rebound = {a.targets[0].id for a in all_nodes(f) if isinstance(a, ast.Assign) and len(a.targets) == 1 and isinstance(a.targets[0], ast.Name)}
+    params -= rebound          # a parameter that is rebound to a fresh object first (x = numpy.asarray(x).copy()) is not tracked
+    bad = []
+    for n in all_nodes(f):
+        if isinstance(n, (ast.Assign, ast.AugAssign)):
+            tg = n.targets if isinstance(n, ast.Assign) else [n.target]
+            for t in tg:
+                base = t
+                while isinstance(base, (ast.Subscript, ast.Attribute)):
+                    base = base.value
+                if isinstance(t, (ast.Subscript, ast.Attribute)) and isinstance(base, ast.Name) and base.id in params:
+                    bad.append(n)
+                if isinstance(n, ast.AugAssign) and isinstance(t, ast.Name) and t.id in params:
+                    bad.append(n)
+        if isinstance(n, ast.Call):
+            o_ = kw(n, 'out')
+            if o_ is not None and isinstance(o_, ast.Name) and o_.id in params:
+                bad.append(n)
+            if isinstance(n.func, ast.Attribute) and n.func.attr in ('sort', 'fill', 'resize', 'put', 'itemset', 'partition', 'clear', 'append', 'extend', 'pop') \
+                    and isinstance(n.func.value, ast.Name) and n.func.value.id in params:
+                bad.append(n)
+    return bad
+
+
 def aliases_of(f, name):
     """the local names that are the same object as `name` through plain rebinding (`name = other`, the only definition)"""
     out = {name}
